@@ -5,6 +5,8 @@
   that decide `stop` (`["input", "output"]`).
 * `rails/llm/llm_flows.co`: parsed by the repo's own Colang 1.0 parser; the `if` guards that consult
   `$generation_options`, `$config.rails.*.flows` and `$skip_output_rails` are re-parsed with `ast` into `OptGuard.G`.
+* `colang/v1_0/runtime/runtime.py::_process_start_action` + `actions/core.py::create_event`: the SHAPE of the two loops that replace
+  `$name` references in action parameters / event values -> Generated/C16Resolve.lean (`resolve_shapes`).
 * `actions/llm/generation.py`, `colang/v1_0/runtime/runtime.py`: the refusal intent is looked up in the default
   bot messages; the internal-error message literal.
 """
@@ -151,7 +153,80 @@ def lean_str_safe(s):
     return lean_str(parts[0]) if len(parts) == 1 else "String.join [" + ", ".join(lean_str(p) for p in parts) + "]"
 
 
+AC = "nemoguardrails/actions/core.py"
+_TOP_LEVEL_LOOP = """
+for k, v in kwargs.items():
+    if isinstance(v, str) and v.startswith("$"):
+        var_name = v[1:]
+        if var_name in context:
+            kwargs[k] = context[var_name]
+"""
+_CE_LOOP = """
+for k, v in event_dict.items():
+    if isinstance(v, str) and {test}:
+        event_dict[k] = context.get(v[1:])
+"""
+
+
+def _norm(src_or_node):
+    node = ast.parse(src_or_node.strip()).body[0] if isinstance(src_or_node, str) else src_or_node
+    return ast.unparse(node)
+
+
+def resolve_shapes():
+    """The two places where a `$name` reference in the parameters of `create event …` is replaced by the context value
+    -> Generated/C16Resolve.lean (the model `RailsInterp.createEventAction` takes both shapes as parameters):
+
+    * `RuntimeV1_0._process_start_action`: ONE loop over `kwargs.items()` that replaces top-level string parameters only
+      (`startActionNested := false`); a runtime that rebuilds `kwargs` through a helper which recurses into dict / list
+      values is `startActionNested := true`; anything else is an unknown shape (TieBroken);
+    * the action `create_event`: ONE loop over `event_dict.items()` with the test `v[0] == "$"` (`createEventIndexTest := true`,
+      raises on the empty string) or `v.startswith("$")` (`false`), replacing by `context.get(v[1:])`."""
+    rt = parse(RT)
+    cls = find_def(rt, "RuntimeV1_0")
+    fn = find_def(rt, "_process_start_action", cls="RuntimeV1_0")
+    loops = [n for n in ast.walk(fn) if isinstance(n, ast.For) and ast.unparse(n.iter) == "kwargs.items()"]
+    nested = None
+    if len(loops) == 1 and _norm(loops[0]) == _norm(_TOP_LEVEL_LOOP):
+        nested = False
+    elif not loops:
+        # kwargs rebuilt through a helper: does the helper descend into dict / list values?
+        helpers = {n.name: n for n in cls.body if isinstance(n, (ast.FunctionDef, ast.AsyncFunctionDef))}
+        for call in ast.walk(fn):
+            if isinstance(call, ast.Call) and isinstance(call.func, ast.Attribute) and call.func.attr in helpers and call.func.attr != "_process_start_action":
+                h = helpers[call.func.attr]
+                src = ast.unparse(h)
+                recursive = any(isinstance(c, ast.Call) and isinstance(c.func, ast.Attribute) and c.func.attr == h.name for c in ast.walk(h))
+                if recursive and "isinstance" in src and ("dict" in src or "list" in src) and "startswith('$')" in src:
+                    nested = True
+    if nested is None:
+        raise TieBroken("RuntimeV1_0._process_start_action: the replacement of `$name` parameters is neither the top-level loop over kwargs.items() nor a recursive helper")
+    ce = find_def(parse(AC), "create_event")
+    ce_loops = [n for n in ast.walk(ce) if isinstance(n, ast.For) and ast.unparse(n.iter) == "event_dict.items()"]
+    if len(ce_loops) != 1:
+        raise TieBroken(f"create_event: expected ONE pass over event_dict.items(), found {len(ce_loops)}")
+    if _norm(ce_loops[0]) == _norm(_CE_LOOP.format(test='v[0] == "$"')):
+        index_test = True
+    elif _norm(ce_loops[0]) == _norm(_CE_LOOP.format(test='v.startswith("$")')):
+        index_test = False
+    else:
+        raise TieBroken("create_event: the reference-replacing loop has an unknown shape: " + _norm(ce_loops[0])[:200])
+    body = f"""namespace NemoVerif.Generated.C16Resolve
+/-- `RuntimeV1_0._process_start_action`: are `$name` references INSIDE dict / list parameters replaced too (true), or only
+    top-level string parameters (false)? -/
+def startActionNested : Bool := {"true" if nested else "false"}
+/-- the action `create_event`: is a reference recognised by `v[0] == "$"` (true; raises on the empty string) or by
+    `v.startswith("$")` (false)? -/
+def createEventIndexTest : Bool := {"true" if index_test else "false"}
+end NemoVerif.Generated.C16Resolve
+"""
+    write_generated("C16Resolve", body)
+    return {"start_action_resolves_nested": nested, "create_event_index_test": index_test,
+            "fingerprint": fingerprint(ce_loops[0])}
+
+
 def run():
+    resolve = resolve_shapes()
     tree = parse(PL)
     fn = find_def(tree, "compute_generation_log")
     ignored_actions = _str_list(fn, "ignored_actions")
@@ -203,4 +278,5 @@ end NemoVerif.Generated.C16
         "fingerprints": {"compute_generation_log": fingerprint(fn), "llm_flows.co element skeleton": shape_digest(shapes)},
         "ignored_actions": ignored_actions, "ignored_flows": ignored_flows, "generation_flows": generation_flows,
         "guards": g,
+        "reference_resolution": resolve,
     }
